@@ -209,6 +209,7 @@ func Explore(setup func() *Exec, opt Options, sh vr.ShardInfo, p *vr.Partial, ex
 		}
 	}
 	p.Add("executions", st.Executions)
+	p.Add("exec:"+opt.Name, st.Executions)
 	p.Add("steps", st.Steps)
 	p.Add("decisions", st.Decisions)
 	p.Max("max_decisions", int64(st.MaxDecisions))
